@@ -588,6 +588,38 @@ pub fn start_watchdog(property: &str, limit_s: u64) {
     });
 }
 
+/// The environment of the *second pass* (`VERIF_SECONDARY=1`, the build with debug assertions):
+/// every work item - and every transition of an explicit-state search - is executed from a
+/// destructor while its thread is unwinding from a panic raised (and caught) by the harness, so
+/// that `std::thread::panicking()` is true throughout. Library code that takes another path
+/// there (clean-up that is skipped, guards that do not finish, a "do not panic twice" shortcut)
+/// is exercised by every family of every check without a family of its own. A panic of the
+/// library inside a work item is caught by the item's own `guard`, as everywhere else.
+pub fn unwinding_env() -> bool {
+    static ON: OnceLock<bool> = OnceLock::new();
+    *ON.get_or_init(|| std::env::var("VERIF_SECONDARY").as_deref() == Ok("1") || std::env::var("VERIF_ENV_UNWINDING").is_ok())
+}
+
+pub fn in_env<T>(f: impl FnOnce() -> T) -> T {
+    if !unwinding_env() {
+        return f();
+    }
+    struct G<F: FnOnce()>(Option<F>);
+    impl<F: FnOnce()> Drop for G<F> {
+        fn drop(&mut self) {
+            if let Some(f) = self.0.take() {
+                f()
+            }
+        }
+    }
+    let mut slot: Option<T> = None;
+    let _ = catch_unwind(AssertUnwindSafe(|| {
+        let _g = G(Some(|| slot = Some(f())));
+        std::panic::resume_unwind(Box::new("the harness unwinds on purpose"));
+    }));
+    slot.expect("the work item did not run")
+}
+
 /// Parallel map-reduce over work items with per-item tallies.
 pub fn par_tally<I, F>(items: Vec<I>, f: F) -> Tally
 where
@@ -599,7 +631,7 @@ where
         .into_par_iter()
         .fold(Tally::new, |mut t, item| {
             let label = std::any::type_name::<I>();
-            watched_for(ITEM_LIMIT.load(Ordering::Relaxed), label.as_bytes(), || f(item, &mut t));
+            watched_for(ITEM_LIMIT.load(Ordering::Relaxed), label.as_bytes(), || in_env(|| f(item, &mut t)));
             t
         })
         .reduce(Tally::new, |mut a, b| {
